@@ -1,7 +1,8 @@
 //! C09: packed / compressed integer vectors return every stored value unchanged.
-//! M+S cell: UintVecMin0 (operation histories evaluated against the Coq model, incl. raw memory).
-//! S-only cells: ZipIntVec, SortedUintVec(+builder, three presets), IntVec<T> x 3 constructors x 8 types,
-//! UintVector (bulk + push).
+//! Every cell is M+S: the direct shadow-Vec oracle decides the property on the real code, and a sample of the cases
+//! is replayed in the Coq mechanism models (coq/C09/Cases.v): UintVecMin0 operation histories incl. raw memory
+//! (CMin0), UintVecMin0::build_from_u32 / build_from_i32 (CMin0Typed), ZipIntVec (CZip), SortedUintVec + builder
+//! (CSorted), IntVec<T> x 3 constructors x 8 types (CIntVec), UintVector bulk + push (CUintVec).
 use crate::util::*;
 use serde_json::{json, Value};
 use zipora::containers::specialized::UintVector;
@@ -21,6 +22,10 @@ pub struct Ctx {
     pub model_intvec: bool, pub n_intvec_coq: usize, pub cap_intvec_coq: usize,
     pub model_zip: bool, pub n_zip_coq: usize, pub cap_zip_coq: usize,
     pub n_min0_coq: usize, pub cap_min0_coq: usize,
+    pub model_uintvec: bool, pub n_uintvec_coq: usize, pub cap_uintvec_coq: usize,
+    pub model_min0typed: bool, pub n_min0typed_coq: usize, pub cap_min0typed_coq: usize,
+    /// replaying corpus/C09 at the start of a run: cases whose model evaluation is very expensive are decided by the oracle only
+    pub corpus_mode: bool,
 }
 
 fn le_number(data: &[u8]) -> String {
@@ -147,10 +152,10 @@ fn check_seq<T: Copy + PartialEq + std::fmt::Debug>(cx: &mut Ctx, cell: &str, cl
     }
 }
 
-fn uintvector_case(cx: &mut Ctx, vals: &[u32], by_push: bool) {
+fn uintvector_case(cx: &mut Ctx, vals: &[u32], by_push: bool, force_coq: bool, rng: &mut Rng) {
     let cell = if by_push { "UintVector/push" } else { "UintVector/build_from" };
     cx.sum.eval(cell, &format!("{} {:?}", cell, vals), vals.len() >= 2);
-    cx.sum.cell_status(cell, "S-only");
+    cx.sum.cell_status(cell, if cx.model_uintvec { "M+S" } else { "S-only" });
     let cj = json!({"cell": "uintvector", "push": by_push, "values": vals});
     let n = vals.len();
     let r = guarded(|| {
@@ -165,14 +170,24 @@ fn uintvector_case(cx: &mut Ctx, vals: &[u32], by_push: bool) {
             u
         } else { UintVector::build_from(vals).map_err(|e| format!("{:?}", e))? };
         let out: Vec<Option<u32>> = (0..n + 8).map(|i| uv.get(i)).collect();
-        Ok::<_, String>((uv.len(), uv.is_empty(), out, uv.get(usize::MAX), mid))
+        Ok::<_, String>((uv.len(), uv.is_empty(), out, uv.get(usize::MAX), mid, uv.stats().1))
     });
+    let mut obs: Vec<String> = vec![];
+    let mut probes: Vec<String> = vec![];
+    let mut coq_idx: Vec<usize> = vec![];
     match r {
-        Err(p) => cx.sum.fail(cell, None, cj, &format!("panicked: {}", p)),
-        Ok(Err(_)) => cx.sum.dist("build_refused"),
-        Ok(Ok((len, empty, out, far, mid))) => {
+        Err(p) => { obs.push("[(-1)]%Z".into()); cx.sum.fail(cell, None, cj.clone(), &format!("panicked: {}", p)) }
+        Ok(Err(_)) => { obs.push("[1]%Z".into()); cx.sum.dist("build_refused") }
+        Ok(Ok((len, empty, out, far, mid, stored))) => {
             if empty != (n == 0) { cx.sum.fail(cell, None, cj.clone(), "is_empty wrong"); }
             if far.is_some() { cx.sum.fail(cell, None, cj.clone(), "get(usize::MAX) not refused"); }
+            let show = |g: &Option<u32>| match g { Some(v) => format!("0; {}", v), None => "1".to_string() };
+            obs.push(format!("[0; {}; {}]%Z", len, stored));
+            for (k, l, g, past) in &mid {
+                let j = (k * 5 + 3) % (k + 1);
+                probes.push(format!("({}, {})", k, j));
+                obs.push(format!("[{}; {}; {}]%Z", l, show(g), show(past)));
+            }
             for (k, l, g, past) in mid {
                 let j = (k * 5 + 3) % (k + 1);
                 if l != k + 1 || g != Some(vals[j]) || past.is_some() {
@@ -180,8 +195,23 @@ fn uintvector_case(cx: &mut Ctx, vals: &[u32], by_push: bool) {
                     break;
                 }
             }
-            check_seq(cx, cell, None, cj, vals, len, |i| out.get(i).copied().flatten());
+            coq_idx = if n <= 300 { (0..n + 8).collect() } else { let mut v: Vec<usize> = (0..n + 8).step_by(37).collect(); v.extend([n - 1, n, n + 7]); v.sort(); v.dedup(); v };
+            for &i in &coq_idx { obs.push(format!("[{}]%Z", show(&out[i]))); }
+            obs.push(format!("[{}]%Z", show(&far)));
+            check_seq(cx, cell, None, cj.clone(), vals, len, |i| out.get(i).copied().flatten());
         }
+    }
+    // model cost: every (re)compression packs its fields into one growing number
+    let mn = vals.iter().min().copied().unwrap_or(0); let mx = vals.iter().max().copied().unwrap_or(0);
+    let w = (32 - (mx - mn).leading_zeros()).max(1) as u64;
+    let rounds: u64 = if by_push { (1..=(n as u64 / 64)).map(|k| (64 * k) * (64 * k) / 2).sum() } else { (n as u64) * (n as u64) / 2 };
+    if cx.model_uintvec && (force_coq || (cx.shards.len() < cx.budget && cx.n_uintvec_coq < cx.cap_uintvec_coq && rounds * w <= 12_000_000 && rng.chance(1, 20))) {
+        cx.n_uintvec_coq += 1;
+        let mut all_idx: Vec<u128> = coq_idx.iter().map(|&i| i as u128).collect();
+        if obs.len() > 1 { all_idx.push(usize::MAX as u128); }
+        let term = format!("CUintVec {} {} [{}] {} [{}]", coq_bool(by_push), coq_n_list(vals.iter().map(|&v| v as u128)), probes.join("; "),
+            coq_n_list(all_idx.into_iter()), obs.join("; "));
+        cx.shards.push(term, cj);
     }
 }
 
@@ -242,18 +272,29 @@ fn zip_case(cx: &mut Ctx, vals: &[u64], mode: u32, force_coq: bool) {
 }
 
 /// UintVecMin0::build_from_i32 / build_from_u32 (value = min + stored offset)
-fn min0_typed_case(cx: &mut Ctx, vals: &[i64], signed: bool) {
+fn min0_typed_case(cx: &mut Ctx, vals: &[i64], signed: bool, force_coq: bool) {
     let cell = if signed { "UintVecMin0/build_from_i32" } else { "UintVecMin0/build_from_u32" };
     cx.sum.eval(cell, &format!("{} {:?}", cell, vals), vals.len() >= 2);
-    cx.sum.cell_status(cell, "S-only");
+    cx.sum.cell_status(cell, if cx.model_min0typed { "M+S" } else { "S-only" });
     let cj = json!({"cell": "min0typed", "signed": signed, "values": vals.iter().map(|v| v.to_string()).collect::<Vec<_>>()});
+    // (size, uintbits, min, stored offsets)
     let r = guarded(|| {
-        if signed { let v: Vec<i32> = vals.iter().map(|&x| x as i32).collect(); let (m, mn) = UintVecMin0::build_from_i32(&v); (m.size(), (0..v.len()).map(|i| mn as i64 + m.get(i) as i64).collect::<Vec<i64>>()) }
-        else { let v: Vec<u32> = vals.iter().map(|&x| x as u32).collect(); let (m, mn) = UintVecMin0::build_from_u32(&v); (m.size(), (0..v.len()).map(|i| mn as i64 + m.get(i) as i64).collect::<Vec<i64>>()) }
+        if signed { let v: Vec<i32> = vals.iter().map(|&x| x as i32).collect(); let (m, mn) = UintVecMin0::build_from_i32(&v); (m.size(), m.uintbits(), mn as i64, (0..v.len()).map(|i| m.get(i)).collect::<Vec<usize>>()) }
+        else { let v: Vec<u32> = vals.iter().map(|&x| x as u32).collect(); let (m, mn) = UintVecMin0::build_from_u32(&v); (m.size(), m.uintbits(), mn as i64, (0..v.len()).map(|i| m.get(i)).collect::<Vec<usize>>()) }
     });
+    let mut obs: Vec<String> = vec![];
     match r {
-        Err(p) => cx.sum.fail(cell, None, cj, &format!("panicked: {}", p)),
-        Ok((len, out)) => check_seq(cx, cell, None, cj, vals, len, |i| out.get(i).copied()),
+        Err(p) => { obs.push("[(-1)]%Z".into()); cx.sum.fail(cell, None, cj.clone(), &format!("panicked: {}", p)) }
+        Ok((len, bits, mn, stored)) => {
+            obs.push(format!("[0; {}; {}; {}]%Z", len, bits, coq_z(mn as i128)));
+            obs.push(format!("[{}]%Z", stored.iter().map(|s| s.to_string()).collect::<Vec<_>>().join("; ")));
+            let out: Vec<i64> = stored.iter().map(|&s| mn + s as i64).collect();
+            check_seq(cx, cell, None, cj.clone(), vals, len, |i| out.get(i).copied());
+        }
+    }
+    if cx.model_min0typed && (force_coq || (cx.shards.len() < cx.budget && cx.n_min0typed_coq < cx.cap_min0typed_coq)) {
+        cx.n_min0typed_coq += 1;
+        cx.shards.push(format!("CMin0Typed {} {} [{}]", coq_bool(signed), coq_z_list(vals.iter().map(|&v| v as i128)), obs.join("; ")), cj);
     }
 }
 
@@ -272,13 +313,13 @@ fn run_one(cx: &mut Ctx, c: &Value, rng: &mut Rng) {
                       else { sorted::preset(c["preset"].as_u64().unwrap_or(0) as usize) };
             sorted::sorted_case(cx, cfg, &parse_u64s(&c["values"]), true)
         }
-        Some("uintvector") => uintvector_case(cx, &parse_u64s(&c["values"]).iter().map(|&x| x as u32).collect::<Vec<_>>(), c["push"].as_bool().unwrap_or(false)),
+        Some("uintvector") => uintvector_case(cx, &parse_u64s(&c["values"]).iter().map(|&x| x as u32).collect::<Vec<_>>(), c["push"].as_bool().unwrap_or(false), true, rng),
         Some("zip") => { let mode = c["mode"].as_u64().map(|m| m as u32).unwrap_or(if c["push"].as_bool().unwrap_or(false) { 1 } else { 0 }); zip_case(cx, &parse_u64s(&c["values"]), mode, true) }
-        Some("min0typed") => { let v: Vec<i64> = c["values"].as_array().unwrap().iter().map(|x| x.as_str().unwrap_or("0").parse::<i64>().unwrap_or(0)).collect(); min0_typed_case(cx, &v, c["signed"].as_bool().unwrap_or(false)) }
+        Some("min0typed") => { let v: Vec<i64> = c["values"].as_array().unwrap().iter().map(|x| x.as_str().unwrap_or("0").parse::<i64>().unwrap_or(0)).collect(); min0_typed_case(cx, &v, c["signed"].as_bool().unwrap_or(false), true) }
         Some("intvec") => {
             let strs: Vec<String> = c["values"].as_array().unwrap().iter().map(|x| x.as_str().unwrap().to_string()).collect();
             let ctor = c["ctor"].as_u64().unwrap_or(0) as usize;
-            macro_rules! go { ($t:ty) => {{ let v: Vec<$t> = strs.iter().map(|s| s.parse::<$t>().unwrap()).collect(); intvec::intvec_case::<$t>(cx, &v, "replay", &[ctor.min(2)], true, rng); }}; }
+            macro_rules! go { ($t:ty) => {{ let v: Vec<$t> = strs.iter().map(|s| s.parse::<$t>().unwrap()).collect(); intvec::intvec_case::<$t>(cx, &v, "replay", &[ctor.min(2)], 1, rng); }}; }
             match c["type"].as_str().unwrap_or("u32") {
                 "u8" => go!(u8), "u16" => go!(u16), "u32" => go!(u32), "u64" => go!(u64),
                 "i8" => go!(i8), "i16" => go!(i16), "i32" => go!(i32), _ => go!(i64),
@@ -299,13 +340,16 @@ pub fn run(args: &Args) {
     if std::env::var("C09_LOUD").is_ok() { std::panic::set_hook(Box::new(|i| { if let Some(l) = i.location() { if l.file().contains("harness") || l.file().contains("c09") { eprintln!("harness panic at {}:{}", l.file(), l.line()); } } })); }
     let th = args.thorough;
     let mut cx = Ctx {
-        sum: Summary::new("C09", "UintVecMin0: generated operation histories (new/set/get/push_back/resize/clear/build_from/dump) at widths 0,1,3,7,8,9,13,31,32,33,57,58 with values at mask and mask+1, every element read back and raw memory dumped, compared with the Coq model and with a shadow Vec; IntVec<8 types> x 3 constructors: all sequences of length <=4 over {0,1,MAX-1,MAX,MIN}, then 13 shapes (constant, arithmetic, sorted small/big steps, sorted with a jump near the end, one inversion, small range, full range, few huge outliers, type extremes, per-block bases, around zero, shifted random) at lengths 0..257 around 4/8/32/64/128/256 and (fewer) around 1000/1024/2048/10000/16384, read back at every index (sampled above 400) and five indices past the end; SortedUintVec: three presets and custom (block 16..256, offset 8..32, sample 16..64 bits, simd on/off, some invalid) x sorted sequences whose in-block deltas sit at 2^w-1, 2^w, 2^w+1 and whose bases sit at the sample-width limit and at u64::MAX, get/get2/get_block at every index and past the end; ZipIntVec: build_from_usize/u32, push with fixed and growing width, values up to usize::MAX; UintVector build_from and push (prefix re-read during construction) incl. runs and >1000 elements; non-trivial = history of >=3 ops or sequence of >=2 elements"),
+        sum: Summary::new("C09", "UintVecMin0: generated operation histories (new/set/get/push_back/resize/clear/build_from/dump) at widths 0,1,3,7,8,9,13,31,32,33,57,58 with values at mask and mask+1, every element read back and raw memory dumped, compared with the Coq model and with a shadow Vec; IntVec<8 types> x 3 constructors: all sequences of length <=4 over {0,1,MAX-1,MAX,MIN}, then 13 shapes (constant, arithmetic, sorted small/big steps, sorted with a jump near the end, one inversion, small range, full range, few huge outliers, type extremes, per-block bases, around zero, shifted random) at lengths 0..257 around 4/8/32/64/128/256 and (fewer) around 1000/1024/2048/10000/16384, read back at every index (sampled above 400) and five indices past the end; SortedUintVec: three presets and custom (block 16..256, offset 8..32, sample 16..64 bits, simd on/off, some invalid) x sorted sequences whose in-block deltas sit at 2^w-1, 2^w, 2^w+1 and whose bases sit at the sample-width limit and at u64::MAX, get/get2/get_block at every index and past the end; IntVec additionally: one vector of more than 10000 elements whose short last block carries the widest offsets (full analysis, block layout) and 59..63-bit fields whose last field ends in the last byte of the buffer (n*w = 121..127 mod 128); ZipIntVec: build_from_usize/u32, push with fixed and growing width, values up to usize::MAX; UintVector build_from and push (prefix re-read during construction) incl. runs and >1000 elements; UintVecMin0::build_from_i32/u32 incl. i32::MIN with i32::MAX; non-trivial = history of >=3 ops or sequence of >=2 elements"),
         shards: CoqShards::new(HEADER, 100),
-        budget: if th { 12000 } else { 1450 },
+        budget: if th { 12000 } else { 1500 },
         model_sorted: MODEL_SORTED, n_sorted_coq: 0, cap_sorted_coq: if th { 4000 } else { 450 },
-        model_intvec: MODEL_INTVEC, n_intvec_coq: 0, cap_intvec_coq: if th { 4000 } else { 450 },
+        model_intvec: MODEL_INTVEC, n_intvec_coq: 0, cap_intvec_coq: if th { 4000 } else { 300 },
         model_zip: MODEL_ZIP, n_zip_coq: 0, cap_zip_coq: if th { 2000 } else { 200 },
         n_min0_coq: 0, cap_min0_coq: if th { 3000 } else { 350 },
+        model_uintvec: MODEL_UINTVEC, n_uintvec_coq: 0, cap_uintvec_coq: if th { 1500 } else { 150 },
+        model_min0typed: MODEL_MIN0TYPED, n_min0typed_coq: 0, cap_min0typed_coq: if th { 500 } else { 50 },
+        corpus_mode: false,
     };
     let mut rng = Rng::new(args.seed);
     if let Some(f) = &args.replay {
@@ -323,7 +367,9 @@ pub fn run(args: &Args) {
         for p in files {
             if let Ok(v) = serde_json::from_str::<Value>(&std::fs::read_to_string(&p).unwrap_or_default()) {
                 let c = if v.get("case").is_some() { v["case"].clone() } else { v };
+                cx.corpus_mode = true;
                 run_one(&mut cx, &c, &mut rng);
+                cx.corpus_mode = false;
                 cx.sum.dist("corpus_cases");
             }
         }
@@ -333,6 +379,9 @@ pub fn run(args: &Args) {
     intvec::enum_small::<u16>(&mut cx, &mut rng); intvec::enum_small::<i16>(&mut cx, &mut rng);
     intvec::enum_small::<u32>(&mut cx, &mut rng); intvec::enum_small::<i32>(&mut cx, &mut rng);
     intvec::enum_small::<u64>(&mut cx, &mut rng); intvec::enum_small::<i64>(&mut cx, &mut rng);
+    // the full analysis (more than 10000 elements), replayed in the model
+    match rng.below(4) { 0 => intvec::full_analysis_case::<u16>(&mut cx, &mut rng), 1 => intvec::full_analysis_case::<u32>(&mut cx, &mut rng),
+                         2 => intvec::full_analysis_case::<i32>(&mut cx, &mut rng), _ => intvec::full_analysis_case::<u64>(&mut cx, &mut rng) }
     let nh = if th { 30000 } else { 2000 };
     for i in 0..nh {
         let ops = gen_history(&mut rng);
@@ -343,6 +392,7 @@ pub fn run(args: &Args) {
     for i in 0..nv {
         all_types(&mut cx, &mut rng, 0);
         if i % 12 == 0 { all_types(&mut cx, &mut rng, 1); }
+        if i % 5 == 0 { intvec::tight_tail_case::<u64>(&mut cx, &mut rng, 40); intvec::tight_tail_case::<i64>(&mut cx, &mut rng, 40); }
         if i % 175 == 3 { all_types(&mut cx, &mut rng, 2); }
         sorted::gen_sorted(&mut cx, &mut rng, i);
         sorted::gen_sorted(&mut cx, &mut rng, i + 1);
@@ -354,8 +404,8 @@ pub fn run(args: &Args) {
             4 => (rng.below(1000) as u32) << (rng.below(22) as u32),
             5 => { if run_left == 0 { run_left = 1 + rng.below(40); run_val = if rng.chance(1, 4) { rng.next() as u32 } else { rng.below(5) as u32 }; } run_left -= 1; run_val }
             _ => u32::MAX - rng.below(3) as u32 }).collect();
-        uintvector_case(&mut cx, &uv, false);
-        uintvector_case(&mut cx, &uv, true);
+        uintvector_case(&mut cx, &uv, false, false, &mut rng);
+        uintvector_case(&mut cx, &uv, true, false, &mut rng);
         // ZipIntVec
         let zn = *rng.pick(&[1usize, 1, 2, 3, 10, 63, 64, 65, 130]);
         let sh = *rng.pick(&[0u32, 1, 8, 20, 40, 57, 58, 59, 63]);
@@ -370,20 +420,24 @@ pub fn run(args: &Args) {
         // UintVecMin0 typed builders
         let tn = *rng.pick(&[1usize, 2, 3, 64, 65]);
         let tv: Vec<i64> = (0..tn).map(|_| match i % 4 { 0 => rng.below(100) as i64 - 50, 1 => *rng.pick(&[i32::MIN as i64, i32::MAX as i64, 0, -1, 1]), 2 => (rng.next() as i32) as i64, _ => i32::MIN as i64 + rng.below(1000) as i64 }).collect();
-        min0_typed_case(&mut cx, &tv, true);
+        min0_typed_case(&mut cx, &tv, true, false);
         let tu: Vec<i64> = tv.iter().map(|&x| (x as i32 as u32) as i64).collect();
-        min0_typed_case(&mut cx, &tu, false);
+        min0_typed_case(&mut cx, &tu, false, false);
     }
     cx.sum.dist_max("coq_cases", cx.shards.len() as u64);
     cx.sum.dist_max("coq_cases_min0", cx.n_min0_coq as u64);
     cx.sum.dist_max("coq_cases_sorted", cx.n_sorted_coq as u64);
     cx.sum.dist_max("coq_cases_zip", cx.n_zip_coq as u64);
     cx.sum.dist_max("coq_cases_intvec", cx.n_intvec_coq as u64);
+    cx.sum.dist_max("coq_cases_uintvector", cx.n_uintvec_coq as u64);
+    cx.sum.dist_max("coq_cases_min0typed", cx.n_min0typed_coq as u64);
     let sh = cx.shards.write(&args.out);
     cx.sum.write(&args.out, sh);
 }
 
 // which mechanism models exist on the Coq side (coq/C09/Cases.v must know the constructor)
 const MODEL_SORTED: bool = true;
-const MODEL_INTVEC: bool = false;
+const MODEL_INTVEC: bool = true;
 const MODEL_ZIP: bool = true;
+const MODEL_UINTVEC: bool = true;
+const MODEL_MIN0TYPED: bool = true;
